@@ -87,7 +87,9 @@ def run(ctx):
     ctx.rule("R4", "cli::print::Diff is constructed only in Diff::generate (single source of CLI edits)")
     ctx.rule("R5", "LSP text edits take their range from the Edit returned by make_edit, not from the diagnostic range")
     ctx.rule("R6", "the text an accepted fix is spliced into is the document text the fix's range was computed against (not a node's text)")
+    ctx.rule("R7", "the replacement text a front end carries is the inserted_text of make_edit's Edit, converted only by identity conversions")
     r6(ctx)
+    r7(ctx)
 
     # ---------------- R1 ---------------------------------------------------------------------
     n_inst = 0
@@ -313,3 +315,60 @@ def short_trait(t):
 def r6(ctx):
     from .c18 import frame_agreement
     frame_agreement(ctx, "R6")
+
+
+from ..query import TRANSPARENT
+IDENTITY_TEXT = TRANSPARENT | {"from_utf8", "from_utf8_lossy", "from_utf8_unchecked", "into_boxed_str", "into_string", "as_bytes", "to_vec", "into_bytes"}
+
+
+def r7(ctx):
+    """CLI (`Diff.replacement`: --json, -U, interactive) and LSP (`RewriteData.fixed`: quick-fix, fix-all) each store the text of the
+    proposed edit.  Both must store what make_edit produced: a front end that post-processes its copy (line endings, trimming, indentation)
+    proposes a different edit than the library's replace() and the other front ends."""
+    prog = ctx.prog
+    sites = []
+    for adt, field in ((r"^ast_grep::print::Diff$", "replacement"), (r"^ast_grep_lsp::utils::RewriteData$", "fixed")):
+        for f, bi, si, st in prog.aggregates_of(adt):
+            if f.impl_trait:
+                continue
+            sites.append((adt.strip("^$"), field, f, st))
+    ctx.floor("R7", "front-end edit carriers", len(sites), 2)
+    for adt, field, f0, st0 in sites:
+        f = prog.inlined(f0)
+        st = st0
+        if f is not f0:
+            cands = [s_ for b in f.blocks for s_ in b["s"] if s_[0] == "A" and s_[2][0] == "agg" and s_[2][1].get("adt") == st0[2][1].get("adt") and s_[2][1].get("fields") == st0[2][1].get("fields")]
+            st = cands[0] if cands else st0
+        ops = dict(zip(st[2][1]["fields"], st[2][2]))
+        if field not in ops:
+            ctx.ob("R7", "%s.%s in %s" % (adt, field, f0.id), False, "field %s not found in the struct literal" % field, where=f0.loc(st[3]))
+            continue
+        foreign, terminal = [], []
+        seen = set()
+        def walk(op, depth=0):
+            if op[0] == "k" or depth > 12:
+                return
+            for o in f.trace_operand(op):
+                k = (o.kind, o.ref if isinstance(o.ref, (int, str)) else id(o.ref))
+                if k in seen:
+                    continue
+                seen.add(k)
+                if o.kind == "call":
+                    c = o.ref
+                    if c.name == "make_edit":
+                        terminal.append(c)
+                    elif c.name in IDENTITY_TEXT and c.args:
+                        walk(c.args[0], depth + 1)
+                    else:
+                        foreign.append(c.name)
+                elif o.kind == "agg":
+                    for sub in o.ref[2][2]:
+                        walk(sub, depth + 1)
+                elif o.kind == "param":
+                    foreign.append("parameter %s" % f.local_name(o.ref))
+        walk(ops[field])
+        ok = bool(terminal) and not foreign
+        ctx.ob("R7", "%s.%s in %s" % (adt, field, f0.id), ok,
+               "%s = inserted_text of the Edit returned by make_edit (conversions only)" % field if ok else
+               "%s is not make_edit's inserted_text unmodified: it passes through %s%s — this front end proposes a different replacement text than the library and the other front ends"
+               % (field, sorted(set(foreign)) or "nothing", "" if terminal else " and never reaches make_edit"), where=f0.loc(st[3]))
